@@ -345,6 +345,23 @@ type replayStream struct {
 
 func NewStream() io.ReadWriteCloser { return &replayStream{} }
 
+// WriteMistyped: see api_sym.go.
+func WriteMistyped(w io.Writer, v interface{}) {
+	b, err := json.Marshal(v)
+	if err != nil {
+		panic(err)
+	}
+	members := map[string]json.RawMessage{}
+	if err := json.Unmarshal(b, &members); err != nil {
+		panic(err)
+	}
+	members["jsonrpc"] = json.RawMessage("2")
+	if b, err = json.Marshal(members); err != nil {
+		panic(err)
+	}
+	w.Write(append(b, '\n'))
+}
+
 // KVStorm has no native counterpart (real conflicts need real concurrent writers).
 func KVStorm(n int) {}
 
